@@ -7,11 +7,22 @@ Deductive (contracts/locks.py):
                                     to retry; _check_lock() and _try_lock() have no suspension between them
   _AsyncioReadWriteLock._acquire_read / _release_read   count bookkeeping: the write mutex is obtained before the
                                     count is incremented, the last reader frees it, release has no suspension
+  _AsyncioReadWriteLock [interleaved]  mutual exclusion for ANY number of tasks and ANY schedule: a yield-point
+                                    invariant over the real fields and per-task ghost contributions (mine/rest to the
+                                    reader count, wmine/wrest writers, rmine/rrest holders of the readers' mutex) holds
+                                    at every suspension and every exit (normal, cancelled, failing critical section) of
+                                    _acquire_read, _release_read, read_lock, write_lock; inside read_lock's critical
+                                    section -- before and after arbitrary interference -- no writer is inside; inside
+                                    write_lock's, no reader and no other writer; every exit restores the task's
+                                    contributions (a cancelled or failing reader/writer gives up its place).  The
+                                    views of different tasks compose (lemma rwlock_views_compose).  asyncio.Lock is an
+                                    assumed contract: acquire returns only when nobody holds the lock.
+                                    Not covered deductively: absence of deadlock (bounded exploration below).
 Bounded (harness/e2e_locks.py, schedule exploration of the REAL coroutines with asyncio.Lock replaced by a stated
 model): mutual exclusion, no deadlock, lock usable and count zero after any single cancellation, for programs of 2..4
 tasks; FileLock with 2..3 writers on a real temporary directory incl. a failing critical section.
 """
-from pyvc.prop import Property, Bounded, Structural
+from pyvc.prop import Property, Bounded, Structural, Lemma
 from . import locks as L
 from harness.e2e_locks import bounded_locks
 import ast
@@ -41,6 +52,7 @@ PROPERTY = Property(
     'C20', 'Lock primitives give the exclusion they document',
     contracts=L.CONTRACTS, registry=L.ALL_REG,
     structural=[Structural('release_has_no_suspension', release_has_no_suspension)],
+    lemmas=[Lemma('pymap.concurrent._AsyncioReadWriteLock/lemma/rwlock_views_compose', L.rwlock_views_compose)],
     bounded=[Bounded('all interleavings + one cancellation of 2..4 tasks on the real lock classes',
                      'read-write lock: task programs (r,w) (w,r) (w,w) (r,r,w) (w,r,r) (r,w,r) (rw,w) (wr,r) (w,w,r) '
                      '[thorough: + six programs with 3-4 tasks / two acquisitions each], every scheduling choice at every '
@@ -50,10 +62,16 @@ PROPERTY = Property(
                      'per program',
                      bounded_locks('C20'), decisive=True)],
     level='other', design_ref='6 C20',
-    explanation='deductive: release-on-every-exit and entry-only-while-held of FileLock, count bookkeeping of the '
-                'read-write lock (z3); bounded: mutual exclusion / deadlock / cancellation over all schedules of small '
-                'task sets (schedule exploration of the real coroutines)',
+    explanation='deductive: release-on-every-exit and entry-only-while-held of FileLock; count bookkeeping and, by a '
+                'yield-point invariant with per-task ghost contributions, mutual exclusion of the asyncio read-write '
+                'lock for any number of tasks, schedules and cancellations (z3); bounded: mutual exclusion again, '
+                'deadlock and usability after cancellation over all schedules of small task sets (schedule exploration '
+                'of the real coroutines)',
     trusted_base=['model of asyncio.Lock (FIFO, acquire suspends iff locked or queued; harness/sched.py)',
+                  'deductive part: asyncio.Lock.acquire returns (possibly after a suspension at which a cancellation '
+                  'may be delivered instead) only when no task holds the lock, and the caller holds it until release',
+                  'asyncio cooperative scheduling (a coroutine is atomic between suspensions); rely of the '
+                  'interleaved contracts = the yield-point invariant, justified by lemma rwlock_views_compose',
                   "open(path, 'x') is exclusive (POSIX O_EXCL), also across processes",
                   '_ThreadingReadWriteLock (preemptive) is not covered'],
 )
